@@ -532,7 +532,7 @@ theorem macroBodyLen_spec (rest : List Str) (k : Nat) :
           exact ⟨by omega, fun m z hm hz => h2 (m + 1) z (by omega) (by simpa using hz)⟩
 
 /-- the parent of every line of the final tree -/
-theorem parse_parentOf (cfg : Cfg) (ls : List Str) (j : Nat) (hj : j < (parse cfg ls).size) :
+theorem parse_parentOf_full (cfg : Cfg) (ls : List Str) (j : Nat) (hj : j < (parse cfg ls).size) :
     parentOf (parse cfg ls) j = specParentFull cfg (parse cfg ls).texts j := by
   have h := parse_is_link cfg ls
   conv => lhs; rw [h]
